@@ -86,8 +86,9 @@ def nsmap_for(g):
     return m
 
 
-def roundtrip(s, g, doc, name, conv, kw, st, label, classes=()):
+def roundtrip(s, g, doc, name, conv, kw, st, label, classes=(), enc_kw=None):
     out = []
+    enc_kw = enc_kw or {}
 
     def rec(kind, expected, observed):
         return {'kind': kind, 'input': {'xsd': g.xsd(), 'doc': doc, 'converter': name, 'label': label},
@@ -97,7 +98,7 @@ def roundtrip(s, g, doc, name, conv, kw, st, label, classes=()):
     opts = dict(converter=conv, use_defaults=False, **kw)
     try:
         data = s.decode(doc, **opts)
-        el = s.encode(data, **opts)
+        el = s.encode(data, **opts, **enc_kw)
     except xmlschema.XMLSchemaException as e:
         return [rec('roundtrip_raises', 'decode then encode succeed on a valid document',
                     type(e).__name__ + ': ' + str(getattr(e, 'reason', e))[:160])]
@@ -123,6 +124,79 @@ def roundtrip(s, g, doc, name, conv, kw, st, label, classes=()):
     if not same:
         out.append(rec('roundtrip_data', 'decodes to the same data again', repr(data2)[:200]))
     return out
+
+
+# ------------------------------------------------------------------------------------ template: indirect declarations
+
+TPL_XSD = ('<xs:schema xmlns:xs="http://www.w3.org/2001/XMLSchema" xmlns:t="urn:t" targetNamespace="urn:t" '
+           'elementFormDefault="qualified"><xs:simpleType name="ints"><xs:list itemType="xs:int"/></xs:simpleType>'
+           '<xs:simpleType name="iob"><xs:union memberTypes="xs:int xs:boolean"/></xs:simpleType>'
+           '<xs:element name="head" type="xs:anySimpleType"/>'
+           '<xs:element name="mi" type="t:ints" substitutionGroup="t:head"/>'
+           '<xs:element name="md" type="xs:decimal" substitutionGroup="t:head"/>'
+           '<xs:element name="mu" type="t:iob" substitutionGroup="t:head"/>'
+           '<xs:element name="gl" type="t:ints"/><xs:element name="gc"><xs:complexType><xs:sequence>'
+           '<xs:element name="v" type="t:ints" maxOccurs="unbounded"/></xs:sequence><xs:attribute name="la" type="t:ints"/>'
+           '</xs:complexType></xs:element>'
+           '<xs:element name="root"><xs:complexType><xs:sequence>'
+           '<xs:element ref="t:head" minOccurs="0" maxOccurs="unbounded"/>'
+           '<xs:element name="one" minOccurs="0"><xs:complexType><xs:sequence><xs:element ref="t:head"/></xs:sequence>'
+           '</xs:complexType></xs:element>'
+           '<xs:element name="w" minOccurs="0"><xs:complexType><xs:sequence><xs:any namespace="##any" '
+           'processContents="lax" minOccurs="0" maxOccurs="unbounded"/></xs:sequence></xs:complexType></xs:element>'
+           '<xs:element name="w1" minOccurs="0"><xs:complexType><xs:sequence><xs:any namespace="##targetNamespace" '
+           'processContents="strict"/></xs:sequence></xs:complexType></xs:element>'
+           '</xs:sequence></xs:complexType></xs:element></xs:schema>')
+TPL_VALUES = {'head': ['x', '1 2'], 'mi': ['1 2 3', '4', '5 6'], 'md': ['1.5', '2'], 'mu': ['1', 'true'],
+              'gl': ['7 8', '9'], 'gc': None}
+
+
+def encode_lookup(s, doc, name, conv, st):
+    """encode() without a path on a schema with several global elements: the element is looked up from the
+    data; the call either works or raises a library error."""
+    st.case()
+    data = s.decode(doc, converter=conv, use_defaults=False)
+    try:
+        s.encode(data, converter=conv, use_defaults=False)
+    except xmlschema.XMLSchemaException:
+        st.cls('encode_without_path_refused:' + name)
+    except Exception as e:      # noqa
+        return [{'kind': 'encode_lookup_crashes', 'input': {'xsd': TPL_XSD, 'doc': doc, 'converter': name},
+                 'expected': 'an element or an XMLSchemaException', 'observed': type(e).__name__ + ': ' + str(e)[:100],
+                 'classes': [], 'key': 'lookup|%s|%016x' % (name, core.h64(doc))}]
+    return []
+
+
+class TplG:
+    """what roundtrip() needs of a generator: target namespace and schema text."""
+    tns = 'urn:t'
+
+    @staticmethod
+    def xsd():
+        return TPL_XSD
+
+
+def tpl_doc(rnd):
+    """Elements whose declaration is reached INDIRECTLY: members of a substitution group in place of the head
+    (repeatable and single), global elements admitted by lax / strict wildcards; same-named siblings adjacent."""
+    def el(name):
+        if name == 'gc':
+            return '<p:gc%s>%s</p:gc>' % (' la="1 2"' if rnd.random() < .5 else '',
+                                         ''.join('<p:v>%s</p:v>' % rnd.choice(['1 2', '3']) for _ in range(rnd.randint(1, 2))))
+        return '<p:%s>%s</p:%s>' % (name, rnd.choice(TPL_VALUES[name]), name)
+    parts = []
+    for name in ('head', 'mi', 'md', 'mu'):
+        parts += [el(name) for _ in range(rnd.choice([0, 0, 1, 2, 3]))]
+    if rnd.random() < .6:
+        parts.append('<p:one>%s</p:one>' % el(rnd.choice(['mi', 'mi', 'md', 'mu', 'head'])))
+    if rnd.random() < .6:
+        inner = []
+        for name in ('gl', 'mi', 'gc'):
+            inner += [el(name) for _ in range(rnd.choice([0, 1, 2]))]
+        parts.append('<p:w>%s</p:w>' % ''.join(inner))
+    if rnd.random() < .5:
+        parts.append('<p:w1>%s</p:w1>' % el(rnd.choice(['gl', 'mi', 'gc'])))
+    return '<p:root xmlns:p="urn:t">%s</p:root>' % ''.join(parts)
 
 
 # ------------------------------------------------------------------------------------ (b) mutations
@@ -257,13 +331,33 @@ def encode_soundness(s, g, doc, name, conv, rnd, st, n_mut):
 # ------------------------------------------------------------------------------------ protocol
 
 def shards(tier, seed):
-    return [(k, tier, seed) for k in range(16)]
+    return [(k, tier, seed) for k in range(16)] + [('tpl%d' % k, tier, seed) for k in range(2)]
 
 
 def run_shard(desc):
     from hypothesis import strategies as hst
     k, tier, seed = desc
     st = core.Stats()
+    if isinstance(k, str):
+        schemas = [xmlschema.XMLSchema10(TPL_XSD), xmlschema.XMLSchema11(TPL_XSD)]
+
+        def tbody(rnd, st_):
+            s = schemas[rnd.random() < .3]
+            doc = tpl_doc(rnd)
+            st_.sample({'template doc': doc[:300]}, cap=2)
+            recs = []
+            for name, conv, kw in LOSSLESS + DICT + [('Unordered', xmlschema.UnorderedConverter, {})]:
+                if 'p:one' in doc or 'p:w' in doc:
+                    st_.nt((doc, name))
+                # several global elements: the element to encode is named by path (the data key of some converters
+                # is not a path, e.g. GData's p$root)
+                recs += roundtrip(s, TplG, doc, name, conv, kw, st_, 'template',
+                                  enc_kw=dict(path='p:root', namespaces={'p': 'urn:t'}))
+                recs += encode_lookup(s, doc, name, conv, st_)
+            return recs
+        core.hyp_drive(st, PROPERTY, hst.randoms(use_true_random=False), tbody, 400 if tier == 'thorough' else 60,
+                       core.derive_seed(seed, 'C05tpl', k))
+        return st
     n = 120 if tier == 'thorough' else 18
 
     def body(rnd, st_):
@@ -300,6 +394,7 @@ def run_shard(desc):
 
 
 CONV = {n: c for n, c, _ in LOSSLESS + DICT}
+CONV['Unordered'] = xmlschema.UnorderedConverter
 
 
 def replay(record):
@@ -316,7 +411,12 @@ def replay(record):
             @staticmethod
             def xsd():
                 return xsd
-        if record['kind'].startswith('roundtrip'):
+        if record['kind'] == 'encode_lookup_crashes':
+            recs = encode_lookup(s, doc, name, CONV[name], st)
+        elif record['kind'].startswith('roundtrip') and inp.get('label') == 'template':
+            recs = roundtrip(s, G, doc, name, CONV[name], {}, st, 'template',
+                             enc_kw=dict(path='p:root', namespaces={'p': 'urn:t'}))
+        elif record['kind'].startswith('roundtrip'):
             rcl = ['nil-on-list-type'] if ('nil=' in doc and 'itemType' in xsd) else []
             recs = roundtrip(s, G, doc, name, CONV[name], {}, st, inp.get('label', ''), rcl)
         else:
